@@ -22,6 +22,10 @@ CHECKS = {
             "Parameter grid in evidence; c1*delta <= 1/2; ties may be broken either way; epochs at power-of-two rounds admitted both ways (DESIGN §5a).", "§3 C05"),
     "C06": ("Same exploration with make_children wrapped per instance: per round at most one expansion, under the pulled cell, only of a leaf, in the reward phase, new cells with zero pulls and infinite U/B; T-HOO expands iff depth <= ceil((ln n/2 - ln(1/nu))/ln(1/rho)) and the tree never exceeds bound+1; HCT/VHCT expand iff leaf and T >= tau (both directions, thresholds from the reference; VHCT's variance-dependent threshold decided by z3 in QF_NRA).",
             "For T-HOO and HCT thresholds and counts are concrete on a path, so the rule itself is evaluated concretely on each of the symbolically enumerated paths; the solver decides which paths exist.", "§3 C06"),
+    "C07": ("Run-level symbolic exploration with a ledger of (point object, reward term): get_last_point() is queried after every round (DOO, SOO, SequOOL, StoSOO) or at the end (StroquOOL whole runs for n=100/200; POO/GPO/PCT/VPCT over recording stub learners for the whole budget); z3 proves under the path condition - which contains the comparisons made inside get_last_point - that the returned list is an evaluated point whose reward (StoSOO: recorded mean of a deepest-level cell; StroquOOL: validation mean; wrappers: learner score / validation mean recomputed by the harness) is >= that of every competitor. Rewards are unconstrained in sign.",
+            "No tie-break is demanded. Wrapper scores are recomputed from delivered rewards; GPO's schedule (N, phase length) comes from the published formula.", "§3 C07"),
+    "C08": ("Run-level symbolic exploration of SOO / StoSOO / DOO with make_children wrapped per instance and a hook that inspects the tree right before every expansion: only evaluated (StoSOO: k-times) leaves are expanded, no unevaluated leaf at a depth <= the expanded one (DOO: anywhere), the expanded leaf has the highest value of its depth (DOO: of all leaves; values recomputed from the ledger, validity under the path condition), sweeps monotone, caps respected, each cell evaluated at most once / k times, the cell handed out is an unevaluated leaf with no shallower unevaluated leaf (StoSOO: a max-b leaf of its depth with < k evaluations), DOO one expansion per pull.",
+            "In this implementation a sweep never contains two expansions (the layer below an expansion always holds fresh leaves), so the sweep-monotonicity clause is vacuous on the current tree; DOO default delta on a concrete box.", "§3 C08"),
 }
 
 NOT_YET = {}
